@@ -1,6 +1,7 @@
 import Driver.Util
 import NutsModel.C05.OneTime
 import NutsModel.C05.Today
+import NutsModel.C05.Forms
 import NutsModel.Facts.C05
 open Lean Nuts.Drv Nuts.C05 Nuts
 
@@ -189,8 +190,51 @@ def crossLine (j : Json) : String :=
   let outs := w.ths.map (fun t => match t.outcome with | some o => o.name | none => "stuck")
   s!"cross kind={jStr j "kind"} first={outs.getD 0 "?"} hostile=done replay={outs.getD 1 "?"}"
 
+/-! request-level layer (Forms.lean): a sequence of token requests / authorization responses served one after the other -/
+
+def optStr (j : Json) (k : String) : Option String := if jHas j k then some (jStr j k) else none
+
+def parsePres (j : Json) : Pres :=
+  { fmt := (match jStr j "fmt" with | "jwt" => .jwt | "ld" => .ld | _ => .other),
+    jwtNonce := jStr j "jwt", ldErr := jBool j "lderr", challenge := jStr j "challenge", nonce := jStr j "nonce" }
+
+def parseForm (j : Json) : Form :=
+  if jStr j "t" == "response" then
+    .response { state := optStr j "state", vpToken := (if jHas j "vp" then some ((jArr j "vp").map parsePres) else none),
+                stateKnown := !jBool j "unknownState", tenantOk := !jBool j "wrongTenant" }
+  else
+    .token { grantType := jStr j "grant", code := optStr j "code", codeVerifier := optStr j "verifier", clientId := optStr j "client",
+             assertion := (if jHas j "assertion" then some (jStrs j "assertion") else none),
+             submission := jBool j "submission", scope := jBool j "scope",
+             dpop := (match jStr j "dpop" with | "bad" => .bad | "good" => .good | _ => .absent) }
+
+/-- descriptions are compared up to their first format verb / colon / quote (the implementation prints them formatted) -/
+def descHead (s : String) : String :=
+  ((s.takeWhile (fun ch => ch != '%' && ch != ':' && ch != '\'')).trimAscii).toString
+
+def ansStr : Ans → String
+  | .ok => "200"
+  | .err c w => c ++ "|" ++ descHead w
+  | .panic site => "panic:" ++ site
+
+def formsLine (j : Json) : String :=
+  let redis := jStr j "backend" == "redis"
+  let cfg := today false (!redis)
+  let pkj := jObj j "pkce"
+  let good := jStr pkj "good"
+  let pk : Pkce := { method := jStr pkj "method", accepts := fun v => v == good }
+  let st : Store := (jArr j "init").foldl (fun st ij =>
+    match kindOf (jStr ij "kind") with
+    | some k => stPut st ⟨k, jStr ij "id"⟩ ⟨jStr ij "val", cfg.ttl k⟩
+    | none => st) []
+  let reqs := (jArr j "reqs").map (fun rj => (jNat rj "dt", parseForm rj))
+  let r := runForms cfg.expInclusive cfg.ttl pk 0 st reqs
+  let live := r.2.1.filterMap (fun (k, e) => if alive cfg.expInclusive r.2.2 e.exp then some (k.ns.name ++ "/" ++ k.id) else none)
+  s!"forms ans={String.intercalate ";" (r.1.map ansStr)} live=[{String.intercalate "," (live.toArray.qsort (· < ·)).toList}]"
+
 def step (u : Unit) (j : Json) : Unit × List String :=
   match jStr j "op" with
+  | "forms" => (u, [formsLine j])
   | "run" => (u, [runLine j])
   | "window" => (u, [windowLine j])
   | "count" => (u, [countLine j])
